@@ -117,6 +117,22 @@ Fixpoint cfold (e : expr) : option Q :=
 Definition atom_or_const (e : expr) : poly :=
   match cfold e with Some q => poly_const (Qred q) | None => poly_atom e end.
 
+(* Max / Min of terms that differ pairwise by constants (Max(N + 2, N), Max(M, M), Max(w, 4) with w worked out): the
+   symbolic backend keeps the winner; mirrors fold_right Qmax a rest.  None: some pair is not comparable *)
+Fixpoint maxp (ismax : bool) (p0 : poly) (ps : list poly) : option poly :=
+  match ps with
+  | [] => Some p0
+  | q :: ps' =>
+      match maxp ismax p0 ps' with
+      | Some m =>
+          match poly_is_const (poly_add q (poly_scale (-1) m)) with
+          | Some c => if Qle_bool 0 c then Some (if ismax then q else m) else Some (if ismax then m else q)
+          | None => None
+          end
+      | None => None
+      end
+  end.
+
 Fixpoint normalize (e : expr) : poly :=
   match e with
   | ENum q => poly_const (Qred q)
@@ -139,6 +155,10 @@ Fixpoint normalize (e : expr) : poly :=
           end
       | None => atom_or_const e
       end
+  | EOp OMax (a :: rest) =>
+      match maxp true (normalize a) (map normalize rest) with Some m => m | None => atom_or_const e end
+  | EOp OMin (a :: rest) =>
+      match maxp false (normalize a) (map normalize rest) with Some m => m | None => atom_or_const e end
   | _ => atom_or_const e
   end.
 
